@@ -1086,7 +1086,9 @@ pub fn dump<'tcx>(tcx: TyCtxt<'tcx>) -> J {
         let k = if group.len() > 1 {
             // still ambiguous (derive helpers in sibling block scopes): number by source order
             let mut g: Vec<DefId> = group.clone();
-            g.sort_by_key(|x| tcx.def_span(*x).lo());
+            // definition order: the disambiguators along the def path (siblings of the
+            // same name are numbered in source order, i.e. field order for derive helpers)
+            g.sort_by_key(|x| tcx.def_path(*x).data.iter().map(|e| e.disambiguator).collect::<Vec<u32>>());
             let i = g.iter().position(|x| *x == d).unwrap();
             format!("{}#{}", k, i)
         } else {
